@@ -87,6 +87,9 @@ func runC16(cfg *vh.Config) error {
 	var pks []pk
 	var jobs []*Job
 	for i := 0; i < nPkg+nAwk; i++ {
+		if i >= 5 && i < 8 {
+			forcedClash = i - 5 // one package of each known-finding class in every run
+		}
 		p := genPackage(rp, i >= nPkg)
 		pks = append(pks, pk{p: p})
 		jobs = append(jobs, &Job{ID: len(jobs), Kind: "j5s", Pkg: p.Pkg, Files: map[string]string{strings.ReplaceAll(p.Pkg, ".", "/") + "/a.j5s": p.text()}})
